@@ -94,7 +94,7 @@ def decoded_payload_events():
     bodies = []
     for s_ in seeds.unit_test_bytes():
         for body in (s_, s_[19:] if s_[:16] == b'\xff' * 16 and len(s_) > 19 else None):
-            if body is not None and 4 <= len(body) <= 4000:
+            if body is not None and 4 <= len(body) <= 4077:
                 bodies.append(body)
 
     def mp(afi, safi, nlri):
@@ -109,6 +109,15 @@ def decoded_payload_events():
     for afi, safi in ((1, 16), (1, 2), (2, 2), (3, 1), (25, 65), (16388, 72), (1, 129), (2, 129), (65535, 255)):
         bodies.append(mp(afi, safi, b'\x18\x0a\x01\x01'))
         bodies.append(unreach(afi, safi, b'\x18\x0a\x01\x01'))
+    # the largest values a decoder hands out: one 2000- / 3900-octet TLV in a BGP-LS attribute (SID fields decode to integers
+    # of any length)
+    lsmp = struct.pack('!HBB', 16388, 71, 4) + b'\x0a\x00\x00\x01\x00' + struct.pack('!HH', 1, 21) + b'\x02' + b'\x00' * 7 + b'\x01' + \
+            struct.pack('!HH', 256, 8) + struct.pack('!HHI', 512, 4, 65000)
+    for t in (1088, 1099, 1158, 1025, 266):
+        for ln in (2000, 3900):
+            ls = struct.pack('!HH', t, ln) + bytes((i * 7 + 1) & 255 for i in range(ln))
+            a = struct.pack('!BBH', 0x90, 14, len(lsmp)) + lsmp + struct.pack('!BBH', 0x90, 29, len(ls)) + ls
+            bodies.append(b'\x00\x00' + struct.pack('!H', len(a)) + a)
     for body in bodies:
         for a4 in (True, False):
             st, r, _ = budget.run(200000, Update.parse, None, body, a4)
@@ -191,7 +200,7 @@ class Sim(object):
         try:
             get_event(name)(self.handler, self.peer, self.clock)
         except Exception as e:   # noqa
-            self.problems.append('handler callback %s raised %s' % (name, type(e).__name__))
+            self.problems.append('handler callback %s raised %s' % (name.split(':')[0], type(e).__name__))
         after = self.snapshot()
         return before, after
 
